@@ -71,6 +71,19 @@ def check_layer_mapping_update(repo: Repo, res: Result) -> None:
             if not m.is_abstract and _ctor_calls(repo, T, m, det.fq):
                 factory = factory or m
     if factory is None:
+        # the construction was extracted into a helper: the most specific method whose inlined view contains it
+        best = None
+        for c in repo.mro(lm):
+            for m in c.methods.values():
+                if m.is_abstract or m.is_property or len(m.param_names) < 2:
+                    continue
+                v = dview(repo, m, lm, family(repo, lm), tag="lm")
+                if _ctor_calls(repo, T, v, det.fq, list(all_nodes(v))):
+                    size = sum(1 for _ in all_nodes(v))
+                    if best is None or size < best[0]:
+                        best = (size, m)
+        factory = best[1] if best else None
+    if factory is None:
         raise AnalysisError("LayerRuleMatcher: no method constructs a LayerRuleViolationDetector (anchor of C05.R2 vanished)")
     view = dview(repo, factory, lm, family(repo, lm), tag="lm")
     ctors = _ctor_calls(repo, T, view, det.fq, list(all_nodes(view)))
